@@ -458,7 +458,169 @@ func factsC15(r *Repo) []Fact {
 	} else {
 		out = append(out, boolFact("streamCheckerKeepsChunkType", keeps, "compose/"+vfile+": the stream form of the combined checker yields map[string]any chunks"))
 	}
+
+	// ---------------- the handler managers (graph_manager.go) ----------------
+	out = append(out, c15ChainFacts(cp, "preNodeHandlerManager", "preNode")...)
+	out = append(out, c15ChainFacts(cp, "preBranchHandlerManager", "preBranch")...)
+	out = append(out, c15ChainFacts(cp, "edgeHandlerManager", "edge")...)
 	return out
+}
+
+// c15ChainFacts: `(*<recv>).handle(..., value any, isStream bool)` applies a list of handlerPairs
+// in a value twin (`v.invoke`) and a stream twin (`v.transform`).  For each twin: does the loop
+// run through the whole list?
+//
+//   - the call is the right-hand side of an assignment that threads the value
+//     (`value = v.transform(value.(streamReader))`, `value, err = v.invoke(value)`), in the body
+//     of a `range` loop over the (unsliced) handler list, on the loop variable;
+//   - the loop body has no way out except an error return: every `return` whose last result is
+//     the literal nil, every `break`/`goto` counts as an early exit.  An early exit under
+//     `if <the bool parameter>` is attributed to the stream twin, one in its `else` to the value
+//     twin, any other to both.
+func c15ChainFacts(cp *Pkg, recv, prefix string) []Fact {
+	vName, sName := prefix+"ValueAppliesAll", prefix+"StreamAppliesAll"
+	fd, file := cp.Func(recv, "handle")
+	if fd == nil || fd.Body == nil {
+		note := "(*" + recv + ").handle not found"
+		return []Fact{unknownFact(vName, "Bool", "false", "compose/graph_manager.go", note), unknownFact(sName, "Bool", "false", "compose/graph_manager.go", note)}
+	}
+	where := "compose/" + file + ": (*" + recv + ").handle"
+	// the bool parameter that selects the twin
+	flag := ""
+	for _, f := range fd.Type.Params.List {
+		if id, ok := f.Type.(*ast.Ident); ok && id.Name == "bool" && len(f.Names) == 1 {
+			flag = f.Names[0].Name
+		}
+	}
+	if flag == "" {
+		note := "no bool parameter selecting the twin"
+		return []Fact{unknownFact(vName, "Bool", "false", where, note), unknownFact(sName, "Bool", "false", where, note)}
+	}
+	// side of a node given its ancestors: "stream" under `if flag {`, "value" under its else
+	// (or under `if !flag {`), "" otherwise
+	sideOf := func(stack []ast.Node, n ast.Node) string {
+		chain := append(append([]ast.Node{}, stack...), n)
+		for i, a := range chain[:len(chain)-1] {
+			is, ok := a.(*ast.IfStmt)
+			if !ok {
+				continue
+			}
+			cond := exprString(is.Cond)
+			if cond != flag && cond != "!"+flag {
+				continue
+			}
+			next := chain[i+1]
+			inBody := next == ast.Node(is.Body)
+			inElse := is.Else != nil && next == ast.Node(is.Else)
+			if !inBody && !inElse {
+				continue
+			}
+			if (cond == flag) == inBody {
+				return "stream"
+			}
+			return "value"
+		}
+		return ""
+	}
+	type twin struct {
+		found, threaded, earlyExit bool
+	}
+	tw := map[string]*twin{"invoke": {}, "transform": {}}
+	loops := 0
+	c15Walk(fd.Body, func(n ast.Node, stack []ast.Node) {
+		rs, ok := n.(*ast.RangeStmt)
+		if !ok || rs.Value == nil {
+			return
+		}
+		loopVar := exprString(rs.Value)
+		if _, sliced := rs.X.(*ast.SliceExpr); sliced {
+			return
+		}
+		// which twins does this loop body call on the loop variable?
+		calls := map[string]bool{}
+		c15Walk(rs.Body, func(m ast.Node, st []ast.Node) {
+			c, ok := m.(*ast.CallExpr)
+			if !ok {
+				return
+			}
+			sel, ok := c.Fun.(*ast.SelectorExpr)
+			if !ok || exprString(sel.X) != loopVar || tw[sel.Sel.Name] == nil {
+				return
+			}
+			t := tw[sel.Sel.Name]
+			calls[sel.Sel.Name] = true
+			t.found = true
+			// threaded: parent statement is `x[, err] = <call>` and x occurs in the call's arguments
+			if len(st) > 0 {
+				if as, ok := st[len(st)-1].(*ast.AssignStmt); ok && as.Tok == token.ASSIGN && len(as.Rhs) == 1 && as.Rhs[0] == ast.Expr(c) {
+					if id, ok := as.Lhs[0].(*ast.Ident); ok {
+						for _, a := range c.Args {
+							ast.Inspect(a, func(x ast.Node) bool {
+								if aid, ok := x.(*ast.Ident); ok && aid.Name == id.Name {
+									t.threaded = true
+								}
+								return true
+							})
+						}
+					}
+				}
+			}
+		})
+		if len(calls) == 0 {
+			return
+		}
+		loops++
+		outerSide := sideOf(stack, n)
+		inFuncLit := func(st []ast.Node) bool {
+			for _, a := range st {
+				if _, ok := a.(*ast.FuncLit); ok {
+					return true
+				}
+			}
+			return false
+		}
+		c15Walk(rs.Body, func(m ast.Node, st []ast.Node) {
+			if inFuncLit(st) {
+				return
+			}
+			early := false
+			switch x := m.(type) {
+			case *ast.ReturnStmt:
+				early = true
+				if len(x.Results) > 0 {
+					if id, ok := x.Results[len(x.Results)-1].(*ast.Ident); !ok || id.Name != "nil" {
+						early = false // an error return
+					}
+				}
+			case *ast.BranchStmt:
+				early = x.Tok == token.BREAK || x.Tok == token.GOTO
+			}
+			if !early {
+				return
+			}
+			side := sideOf(st, m)
+			if side == "" {
+				side = outerSide
+			}
+			if (side == "" || side == "stream") && calls["transform"] {
+				tw["transform"].earlyExit = true
+			}
+			if (side == "" || side == "value") && calls["invoke"] {
+				tw["invoke"].earlyExit = true
+			}
+		})
+	})
+	mk := func(name, sel, what string) Fact {
+		t := tw[sel]
+		if !t.found {
+			return unknownFact(name, "Bool", "false", where, "no `range` loop over the handler list calling ."+sel+" on the loop variable")
+		}
+		return boolFact(name, t.threaded && !t.earlyExit, where+": "+what)
+	}
+	return []Fact{
+		mk(vName, "invoke", "the value twin threads `value, err = v.invoke(value)` through every handler (only error returns leave the loop)"),
+		mk(sName, "transform", "the stream twin threads `value = v.transform(value)` through every handler (no return/break in the loop body)"),
+	}
 }
 
 func containsStr(s, sub string) bool {
